@@ -21,6 +21,7 @@ from .values import (
     JSArrayBuffer,
     to_boolean,
     to_number,
+    as_double,
     to_string,
     js_typeof,
 )
@@ -505,7 +506,7 @@ class VM:
         elif op == OpCode.SUB:
             b = self.stack.pop()
             a = self.stack.pop()
-            self.stack.append(to_number(a) - to_number(b))
+            self.stack.append(as_double(to_number(a) - to_number(b)))
 
         elif op == OpCode.MUL:
             b = self.stack.pop()
@@ -845,11 +846,11 @@ class VM:
         # Increment/Decrement
         elif op == OpCode.INC:
             a = self.stack.pop()
-            self.stack.append(to_number(a) + 1)
+            self.stack.append(as_double(to_number(a) + 1))
 
         elif op == OpCode.DEC:
             a = self.stack.pop()
-            self.stack.append(to_number(a) - 1)
+            self.stack.append(as_double(to_number(a) - 1))
 
         # Closures
         elif op == OpCode.MAKE_CLOSURE:
@@ -958,7 +959,7 @@ class VM:
         if isinstance(a, str) or isinstance(b, str):
             return to_string(a) + to_string(b)
         # Numeric addition
-        return to_number(a) + to_number(b)
+        return as_double(to_number(a) + to_number(b))
 
     def _pow(self, base: Union[int, float], exponent: Union[int, float]) -> float:
         """Number::exponentiate on doubles (the host ** yields big integers, complex
